@@ -7,9 +7,8 @@
 #define __uint(name, val) int (*name)[val]
 #define __type(name, val) typeof(val) *name
 #define __array(name, val) typeof(val) *name[]
-#ifndef __always_inline
+#undef __always_inline
 #define __always_inline inline __attribute__((always_inline))
-#endif
 #ifndef __noinline
 #define __noinline __attribute__((noinline))
 #endif
